@@ -38,7 +38,14 @@ K5 == [prolog |-> <<>>, nodes |-> <<
   RootN, El(1, "r"), El(2, "a"), Tx(3, "t"), Pi(3, "p", "s"), Tx(3, "u"), El(2, "b"), At(7, "x", "1"), Tx(7, "u"),
   El(2, "b"), Tx(10, "v"), El(2, "c"), El(12, "b"), Tx(13, "u"), El(12, "b"), Tx(15, "v") >>]
 
-Docs == <<K1, K2, K3, K4, K5>>
+\* <r xml:lang="(three CJK characters)" x="1"><b/><c><b/></c></r>
+\*   (a language tag of multi-byte characters; an attribute on the DOCUMENT element; one node reached from several others)
+K6 == [prolog |-> <<>>, nodes |-> <<
+  RootN, El(1, "r"),
+  Nd("attr", 2, Cp("xml"), <<108, 97, 110, 103>>, XmlNsUri, <<26085, 26412, 35486>>), At(2, "x", "1"),
+  El(2, "b"), El(2, "c"), El(6, "b") >>]
+
+Docs == <<K1, K2, K3, K4, K5, K6>>
 
 \* ---------------------------------------------------------------------------------------------
 NumL(i)    == [t |-> "num", n |-> OfInt(i)]
@@ -87,7 +94,12 @@ Exprs == <<
   AbsP(<<Dos, Step("child", NameT("a"), <<Rel(<<Step("child", TypeT("text"), <<NumL(2)>>)>>)>>)>>),   \* 23  //a[text()[2]]
   AbsP(<<Dos, Step("child", NameT("b"), <<Bin("!=", Rel(<<AtS("x")>>), StrL("1"))>>)>>),            \* 24  //b[@x != '1']   (false without @x)
   AbsP(<<Dos, Step("child", NameT("c"), <<Bin("!=", Rel(<<Ch("b")>>), StrL("u"))>>)>>),             \* 25  //c[b != 'u']    (some b differs)
-  AbsP(<<Dos, Ch("c"), Step("attribute", [k |-> "name", pre |-> Cp("q"), loc |-> Cp("x")], <<>>)>>) \* 26  //c/@q:x   unbound prefix, empty axis
+  AbsP(<<Dos, Ch("c"), Step("attribute", [k |-> "name", pre |-> Cp("q"), loc |-> Cp("x")], <<>>)>>), \* 26  //c/@q:x   unbound prefix, empty axis
+  AbsP(<<Dos, AtS("x"), Step("parent", TypeT("node"), <<>>)>>),                                     \* 27  //@x/..    (also from the document element's attribute)
+  Fn1("count", AbsP(<<Dos, AtS("x"), Step("ancestor", [k |-> "any"], <<>>)>>)),                      \* 28  count(//@x/ancestor::*)
+  Bin("|", AbsP(<<Dos, Ch("b"), Step("ancestor", [k |-> "any"], <<>>)>>), AbsP(<<Dos, Ch("nofunc")>>)),   \* 29  //b/ancestor::* | //nofunc  (one operand empty, the other reaches a node twice)
+  AbsP(<<Dos, Step("child", [k |-> "any"], <<Fn1("lang", [t |-> "str", v |-> <<106, 97>>])>>)>>),    \* 30  //*[lang('ja')]
+  AbsP(<<Dos, Step("child", [k |-> "any"], <<Fn1("lang", [t |-> "str", v |-> <<26085>>])>>)>>)       \* 31  //*[lang('<first character of the tag>')]
 >>
 
 \* ---------------------------------------------------------------------------------------------
